@@ -53,6 +53,7 @@ type ctx struct {
 	boundaryRefused    int64 // refused by a declared limit (control length refused as well)
 	boundaryNotCarried int64 // field not carried by the variant
 
+	msgLimits         int64 // messages at their documented count limit that round-tripped
 	numeric           int64 // numeric-boundary cases that round-tripped
 	numericRefused    int64 // refused/misparsed together with the neighbouring value (validated field)
 	numericNotCarried int64
@@ -783,6 +784,7 @@ func main() {
 		bc := bc
 		c.guard("boundary", bc.name, func() { c.runBoundary(bc) })
 	}
+	c.guard("msglimit", "message limits", c.checkMsgLimits)
 	phaseT("boundary")
 	par.Go(len(bpar), func(i int) { c.guard("numeric", bpar[i].name, func() { c.runNumeric(bpar[i]) }) })
 	for _, bc := range bseq {
@@ -865,6 +867,7 @@ func main() {
 		"boundary_length_roundtrips":          c.boundary,
 		"boundary_length_refused_by_limit":    c.boundaryRefused,
 		"boundary_length_field_not_carried":   c.boundaryNotCarried,
+		"message_limit_roundtrips":            c.msgLimits,
 		"numeric_boundary_roundtrips":         c.numeric,
 		"numeric_refused_validated_field":     c.numericRefused,
 		"numeric_field_not_carried":           c.numericNotCarried,
